@@ -240,16 +240,21 @@ PROPS["C01"] = {
 
 PROPS["C02"] = {
     "filters": ["k02_"],
-    "functions": ["bit_encoding::decode::decode_node (private, via verif-hooks)", "BitIter::{read_bit, read_u2, read_natural, read_cmr, read_fail_entropy}"],
-    "bounds": "arbitrary 6-byte strings of symbolic length 0..6 at a symbolic position index <= 65535, split by the leading code bits into five harnesses: the node decoder never panics or overflows (index - natural, n - 1) and only returns child references strictly below index",
-    "outside": "whole-program decoding and the canonicity rules that need several nodes (sharing, hidden-node repetition, canonical order, padding/trailing bytes at program level): Arc/Vec/HashSet/type-inference structures are out of CBMC's reach (measured); BitIter::close is covered under C13; word bodies; allocation bounds",
-    "harnesses": [
-        H("k02_total_binary", timeout=1800, mem_gb=12, unwind=5, unwindset=frame_rules(17)),
-        H("k02_total_unary", timeout=1800, mem_gb=12, unwind=5, unwindset=frame_rules(17)),
-        H("k02_total_leaf", timeout=1800, mem_gb=12, unwind=5, unwindset=frame_rules(17)),
-        H("k02_total_witness_hidden", timeout=1800, mem_gb=12, unwind=5, unwindset=frame_rules(17)),
-        H("k02_total_jet", timeout=1800, mem_gb=12, unwind=5, unwindset=frame_rules(17)),
+    "functions": ["bit_encoding::decode::decode_node (private, via verif-hooks)", "BitIter::{read_bit, read_u2, read_u8, read_cmr, read_fail_entropy, next}"],
+    "bounds": "one harness per node class (leading code bits concrete, everything after them symbolic, symbolic length, arbitrary usize position): quick = classes without back references (iden/unit, fail with its 64 entropy bytes, witness, hidden with its CMR, jets); thorough adds the classes with back references with the real read_natural on arbitrary bits (unary, disconnect1, binary, word): the node decoder never panics or overflows (index - natural, n - 1, word size) and only returns child references strictly below its position",
+    "outside": "whole-program decoding and the canonicity rules that need several nodes (sharing, hidden-node repetition, canonical order, padding/trailing bytes at program level): Arc/Vec/HashSet/type-inference structures are out of CBMC's reach (measured); BitIter::close is covered under C13; word bodies (Word::from_bits modelled); allocation bounds",
+    "assumptions": [
+        "Word::from_bits is replaced by a model (ends the stream or returns a word; asserts n <= 31)",
+        "a two-jet stand-in family (the real jet decoders are total by C14 K14.0)",
     ],
+    "harnesses": [H("k02_total_%s" % k, timeout=1500, mem_gb=12, unwind=5,
+                    unwindset=[BITITER_NEXT_REC, (r"BitIter::<.*>::read_(cmr|fail_entropy)$", "*", 66), (r"^(c01|hcons)::", "*", 72)])
+                  for k in ("iden_unit", "fail", "witness", "hidden", "jet")]
+               + [H("k02_total_%s" % k, tiers=("thorough",), timeout=5400, mem_gb=24, core=False, unwind=5,
+                    unwindset=[BITITER_NEXT_REC, (r"BitIter::<.*>::read_(cmr|fail_entropy)$", "*", 66), (r"^(c01|hcons)::", "*", 72),
+                               (r"::read_natural::<", ("rank", 0), 8), (r"::read_natural::<", ("rank", 1), 8),
+                               (r"::read_natural::<", ("rank", 2), 33)])
+                  for k in ("unary", "disconnect1", "binary", "word")],
 }
 
 PROPS["C07"] = {
